@@ -101,6 +101,14 @@ def base(which="B1"):
             {"kind": "gate", "model": "BUF", "conns": [["I", "w"], ["O", "v"]], "cname": "g2"},
         ]
         return {"name": "top9", "inputs": ["a[0]", "a[1]", "a[2]"], "outputs": ["y", "z", "v"], "items": items, "models": models[1:2]}
+    if which == "B10":  # nets of the top model named like the ports of a black box (declared before or after it)
+        dff = {"name": "DFF", "inputs": ["D", "clk"], "outputs": ["Q"]}
+        items = [
+            {"kind": "subckt", "model": "DFF", "conns": [["D", "D"], ["clk", "clk"], ["Q", "Q"]], "cname": "f0"},
+            {"kind": "subckt", "model": "DFF", "conns": [["D", "Q"], ["clk", "clk"], ["Q", "O"]], "cname": "f1"},
+            {"kind": "gate", "model": "BUF", "conns": [["I", "O"], ["O", "I"]], "cname": "g0"},
+        ]
+        return {"name": "top10", "inputs": ["D", "clk"], "outputs": ["Q", "I"], "items": items, "models": [dff, models[1]]}
     raise KeyError(which)
 
 
@@ -135,7 +143,7 @@ def worker(case):
         key = core.digest(text)
         conn_early = any(ead["items"][i]["kind"] == "conn" and any(ead["items"][j]["kind"] != "conn" for j in order[pos + 1:])
                          for pos, i in enumerate(order))
-        tag = "%s:models-%s%s%s" % (which, models, ":conn-before-use" if conn_early else "", ":reversed-formals" if rev else ":continued" if cont else "")
+        tag = "%s:models-%s%s%s" % (which, models, ":conn-before-use" if conn_early else "", ":reversed-formals" if rev else ":split-port-lists" if cont == "split" else ":continued" if cont else "")
         exp = ew.expected(ead, models, list(order))
         try:
             n = parse_text(text)
@@ -229,13 +237,13 @@ engine_b.WORKERS[ID] = worker
 
 def cases(tier):
     out = []
-    for which in ("B1", "B2", "B3", "B4", "B5", "B6", "B7", "B8", "B9"):
+    for which in ("B1", "B2", "B3", "B4", "B5", "B6", "B7", "B8", "B9", "B10"):
         nitems = len(base(which)["items"])
         for order in itertools.permutations(range(nitems)):
             for models in ("after", "before", "none"):
-                conts = (None, 3, "rev", "lone") if tier == "quick" else (None, 2, 3, 4, "rev", "lone")
+                conts = (None, 3, "rev", "lone", "split") if tier == "quick" else (None, 2, 3, 4, "rev", "lone", "split")
                 if nitems > 5:
-                    conts = (None, "lone")
+                    conts = (None, "lone", "split")
                 for cont in conts:
                     for comments in (False, True):
                         if tier == "quick" and comments and (cont or models != "after"):
